@@ -103,6 +103,15 @@ def check(case, ctx):
         raise Violation("roundtrip-not-equal", f"eval(repr(S)) == S is False for {t!r}")
     if repr(S2) != t:
         raise Violation("roundtrip-repr-differs", f"{t!r} vs {repr(S2)!r}")
+    # a representor of one's own: another facade name and indent width, same round trip
+    try:
+        from d42.representation import Representor
+        t_own = S.__accept__(Representor(name="sch", indent=2))
+        S3 = eval(t_own, {"sch": d42.schema, "optional": d42.optional, "UUID": uuid.UUID, "datetime": datetime})
+    except Exception as e:  # noqa
+        raise Violation("own-representor", f"Representor(name='sch', indent=2) on {t!r}: {e!r}")
+    if canon.canon(S3) != c1:
+        raise Violation("own-representor-roundtrip", f"{t_own!r} rebuilds a different schema than {t!r}")
     # the same live object at two nesting depths (and printed on its own first): text must not depend on
     # what was printed before, and the nested form must round-trip as well
     try:
